@@ -172,6 +172,7 @@ class Path:
         self.exit = exit_kind   # return | raise | fall | exc | cut
         self.value = value      # return value / raised expr (substituted)
         self.origin = origin    # for 'exc': the raiser Event
+        self.types = None       # for 'exc': exception names (None = any)
 
     @property
     def normal(self):
@@ -261,6 +262,7 @@ class Run:
             elif sig.kind == 'raise':
                 if sig.origin is not None:
                     self.paths.append(Path(st2, 'exc', sig.value, sig.origin))
+                    self.paths[-1].types = sig.types
                 else:
                     self.paths.append(Path(st2, 'raise', sig.value))
             elif sig.kind == 'cut':
@@ -595,11 +597,14 @@ class Run:
                     ev = self.emit(s3, 'call', node, call, maybe=maybe)
                     self.invalidate_on_call(s3, ev)
                     types = self.raiser(ev) if self.raiser else None
-                    if types:
+                    # a list of sets = one exceptional continuation per set
+                    alts = types if isinstance(types, list) else \
+                        [types] if types else []
+                    for ty in alts:
                         sx = s3.fork()
                         out.append((sx, None, Signal(
                             'raise', None, origin=ev,
-                            types=None if types == '*' else set(types))))
+                            types=None if ty == '*' else set(ty))))
                     out.append((s3, call, None))
         return out
 
